@@ -83,14 +83,16 @@ theorem C19_write_routed (r : Req) (hp : isPassthrough r.path = false)
   · have hget : (r.method == "GET") = false := by
       simp only [isReadMethod, Bool.or_eq_false_iff] at hw; exact hw.1
     simp [hget, hw]
-  · have hh : (r.path == "/litefs/health") = false := by
-      cases h : (r.path == "/litefs/health") with
+  · have hh : (pathOnly r.path == "/litefs/health".toList) = false := by
+      cases h : (pathOnly r.path == "/litefs/health".toList) with
       | false => rfl
       | true =>
-        have : r.path = "/litefs/health" := by simpa using h
-        rw [this] at hw
+        have e : pathOnly r.path = "/litefs/health".toList := by simpa using h
+        unfold isAlwaysForward at hw
+        rw [e] at hw
         exact absurd hw (by decide)
-    simp [hh, hw]
+    rw [hh, hw]
+    simp only [Bool.and_false, Bool.not_true, Bool.false_eq_true, if_false]
 
 /-- the non-read path forwards to the local application only on the primary: a replica redirects,
     a node that knows no primary answers an error -/
